@@ -40,10 +40,25 @@ fn sorted_fp(s: &WorldlineState) -> [u8; 32] {
     *h.finalize().as_bytes()
 }
 
+/// Streams `Debug` output straight into a hasher (no intermediate String).
+pub struct HashWriter(pub blake3::Hasher);
+impl std::fmt::Write for HashWriter {
+    fn write_str(&mut self, s: &str) -> std::fmt::Result {
+        self.0.update(s.as_bytes());
+        Ok(())
+    }
+}
+
+pub fn debug_fp<T: std::fmt::Debug>(t: &T) -> [u8; 32] {
+    use std::fmt::Write;
+    let mut w = HashWriter(blake3::Hasher::new());
+    let _ = write!(w, "{t:?}");
+    *w.0.finalize().as_bytes()
+}
+
 pub fn tick_res(s: &WorldlineState, with_sorted: bool) -> TickRes {
-    let d = format!("{:?}", s.warp_state());
     TickRes {
-        warp_fp: *blake3::hash(d.as_bytes()).as_bytes(),
+        warp_fp: debug_fp(s.warp_state()),
         warp_sorted_fp: if with_sorted { Some(sorted_fp(s)) } else { None },
         root: s.state_root(),
         snap_root: s.last_snapshot().map(|x| x.state_root),
@@ -52,13 +67,11 @@ pub fn tick_res(s: &WorldlineState, with_sorted: bool) -> TickRes {
 }
 
 pub fn meta_fp(s: &WorldlineState) -> [u8; 32] {
-    let d = format!(
-        "{:?}|{:?}|{:?}",
+    debug_fp(&(
         s.tick_history(),
         s.last_materialization().iter().map(|c| (c.channel, c.data.clone())).collect::<Vec<_>>(),
-        s.last_snapshot()
-    );
-    *blake3::hash(d.as_bytes()).as_bytes()
+        s.last_snapshot(),
+    ))
 }
 
 /// Untampered results.
